@@ -275,7 +275,14 @@ impl MomTropFloat for Dd {
     fn sin(&self) -> Self { self.f(f64::sin) }
     fn abs(&self) -> Self { if self.hi < 0.0 { Dd::op_neg(self) } else { *self } }
     fn inv(&self) -> Self { Dd::op_div(&Dd::new(1.0), self) }
-    fn powf(&self, p: &Self) -> Self { Dd::new((self.hi + self.lo).powf(p.hi + p.lo)) }
+    fn powf(&self, p: &Self) -> Self {
+        // x^p = exp(p ln x) in double-double precision for ordinary positive x; the f64 function for everything else
+        if self.hi > 0.0 && self.hi.is_finite() && p.hi.is_finite() {
+            let r = dd_exp(&Dd::op_mul(p, &dd_ln(self)));
+            if r.hi.is_finite() && r.hi > 0.0 { return r; }
+        }
+        Dd::new((self.hi + self.lo).powf(p.hi + p.lo))
+    }
     fn sqrt(&self) -> Self {
         if self.hi <= 0.0 || !self.hi.is_finite() { return Dd::new(self.hi.sqrt()); }
         let x = 1.0 / self.hi.sqrt();
@@ -289,13 +296,53 @@ impl MomTropFloat for Dd {
     fn to_f64(&self) -> f64 { self.hi + self.lo }
 }
 
+const DD_LN2: Dd = Dd { hi: 6.931471805599452862e-01, lo: 2.319046813846299558e-17 };
+
+/// exp in double-double precision (argument reduction by ln 2 and 2^-9, Taylor series, nine squarings)
+fn dd_exp(a: &Dd) -> Dd {
+    if a.hi <= -709.0 { return Dd::new(0.0); }
+    if a.hi >= 709.0 { return Dd::new(f64::INFINITY); }
+    if a.hi == 0.0 && a.lo == 0.0 { return Dd::new(1.0); }
+    let m = (a.hi / DD_LN2.hi + 0.5).floor();
+    let red = Dd::op_sub(a, &Dd::op_mul(&DD_LN2, &Dd::new(m)));
+    let r = Dd { hi: red.hi / 512.0, lo: red.lo / 512.0 };
+    // s = exp(r) - 1
+    let mut term = r;
+    let mut s = r;
+    for i in 2..=12 {
+        term = Dd::op_div(&Dd::op_mul(&term, &r), &Dd::new(i as f64));
+        s = Dd::op_add(&s, &term);
+        if term.hi.abs() < 1e-40 * s.hi.abs().max(1e-300) { break; }
+    }
+    for _ in 0..9 {
+        // (1+s)^2 - 1 = 2s + s^2
+        s = Dd::op_add(&Dd { hi: 2.0 * s.hi, lo: 2.0 * s.lo }, &Dd::op_mul(&s, &s));
+    }
+    let e = Dd::op_add(&s, &Dd::new(1.0));
+    let sc = (2.0f64).powi(m as i32);
+    Dd { hi: e.hi * sc, lo: e.lo * sc }
+}
+
+/// ln in double-double precision: two Newton steps on exp from the f64 logarithm
+fn dd_ln(a: &Dd) -> Dd {
+    if !(a.hi > 0.0) || !a.hi.is_finite() { return Dd::new(a.hi.ln()); }
+    let mut x = Dd::new(a.hi.ln());
+    for _ in 0..2 {
+        let corr = Dd::op_sub(&Dd::op_mul(a, &dd_exp(&Dd::op_neg(&x))), &Dd::new(1.0));
+        x = Dd::op_add(&x, &corr);
+    }
+    x
+}
+
 fn ddv(d: &Dd) -> Value { json!([f2b(d.hi), f2b(d.lo)]) }
 
 /// `sample` with the double-double scalar; Feynman parameters through the hook
 fn op_sample_dd(j: &Value) -> Value {
     let d = j["D"].as_u64().unwrap() as usize;
     let table = table_from_bits(&j["table"]);
-    let xs: Vec<Dd> = get_x(j).iter().map(|&v| Dd::new(v)).collect();
+    // optional low parts: the user's point need not be made of f64 values
+    let lo: Vec<f64> = j.get("x_lo").and_then(|v| v.as_array()).map(|a| a.iter().map(|b| b2f(b.as_u64().unwrap())).collect()).unwrap_or_default();
+    let xs: Vec<Dd> = get_x(j).iter().enumerate().map(|(i, &v)| Dd::norm(v, lo.get(i).copied().unwrap_or(0.0))).collect();
     let st = settings(j);
     with_d6!(d, D, {
         let edge_data: Vec<(Option<Dd>, Vector<Dd, D>)> = j["edge_data"].as_array().unwrap().iter().map(|e| {
@@ -404,8 +451,35 @@ fn get_bits(j: &Value, k: &str) -> Vec<f64> {
     j[k].as_array().map(|a| a.iter().map(|v| b2f(v.as_u64().unwrap())).collect()).unwrap_or_default()
 }
 
+/// `decompose_for_tropical` with the double-double scalar on a matrix given by its f64 entries (optional low parts in `a_lo`)
+fn op_decomp_dd(j: &Value) -> Value {
+    let n = j["n"].as_u64().unwrap() as usize;
+    let a: Vec<f64> = j["a"].as_array().unwrap().iter().map(|b| b2f(b.as_u64().unwrap())).collect();
+    let lo: Vec<f64> = j.get("a_lo").and_then(|v| v.as_array()).map(|x| x.iter().map(|b| b2f(b.as_u64().unwrap())).collect()).unwrap_or_default();
+    let mut m = momtrop::matrix::SquareMatrix::new_zeros_from_num(&Dd::new(0.0), n);
+    for i in 0..n {
+        for k in 0..n {
+            m[(i, k)] = Dd::norm(a[i * n + k], lo.get(i * n + k).copied().unwrap_or(0.0));
+        }
+    }
+    let st = settings(j);
+    match m.decompose_for_tropical(&st) {
+        Err(momtrop::matrix::MatrixError::ZeroDet) => json!({"status": "zerodet"}),
+        Err(momtrop::matrix::MatrixError::Unstable) => json!({"status": "unstable"}),
+        Ok(r) => {
+            let flat = |mm: &momtrop::matrix::SquareMatrix<Dd>| -> Value {
+                let mut o = vec![];
+                for i in 0..n { for k in 0..n { o.push(ddv(&mm[(i, k)])); } }
+                json!(o)
+            };
+            json!({"status": "ok", "det": ddv(&r.determinant), "inv": flat(&r.inverse), "qt": flat(&r.q_transposed), "qti": flat(&r.q_transposed_inverse)})
+        }
+    }
+}
+
 pub fn handle_ext(op: &str, j: &Value) -> Value {
     match op {
+        "decomp_dd" => op_decomp_dd(j),
         "vec_tag" => op_vec_tag(j),
         "sample_track" => op_sample_track(j),
         "sample_dd" => op_sample_dd(j),
